@@ -19,8 +19,8 @@ CONTAINERS = {'o': ['o.x', 'o.y.0', 'o.xs'], 'deep.er': ['deep.er.est'], 'deep':
 BASE = {'big': 1585369512231022593, 'a': 1, 's': 'str', 'o': {'x': True, 'y': [1, 2], 'xs': 'plural'}, 'l': [{'k': 'v'}], 'n': 'nn', 'nx': 'nnx', 'deep': {'er': {'est': 5}},
         # keys that CONTAIN brackets next to members reachable through the dotted reading of the same text
         'filter[status]': 'open', 'filter': {'status': 'dotted'}, 'ids[0]': 'literal', 'ids': ['element']}
-YLEAVES = ['a', 's', 'o.x', 'flag']
-YBASE = {'big': 1585369512231022593, 'a': 1, 's': 'str', 'o': {'x': 'xx'}, 'flag': False}
+YLEAVES = ['a', 's', 'o.x', 'flag', 'log']
+YBASE = {'big': 1585369512231022593, 'a': 1, 's': 'str', 'o': {'x': 'xx'}, 'flag': False, 'log': 'line one'}
 
 
 def setp(d, path, v):
@@ -44,7 +44,13 @@ def yq(v):
 
 def yaml_of(d, skip=()):
     ls = [('a', 'a: %s' % yq(d['a'])), ('s', 's: %s' % yq(d['s'])), ('o.x', 'o:\n  x: %s' % yq(d['o']['x'])), ('flag', 'flag: %s' % (str(d['flag']).lower() if isinstance(d['flag'], bool) else yq(d['flag'])))]
-    return ''.join(l + '\n' for k, l in ls if k not in skip)
+    out = ''.join(l + '\n' for k, l in ls if k not in skip)
+    if 'log' in d and 'log' not in skip:
+        # the LAST member is a block scalar that keeps its trailing blank lines (captured output): how many there are
+        # is part of its value
+        v = str(d['log']) or 'x'
+        out += 'log: |+\n  %s\n%s' % (v, '\n' * (len(v) % 3))
+    return out
 
 
 NEWVALS = [7, 'changed', 'é', 'x"y', 123456, 'a much longer value than before', '', None, 1585369512231022593, 1585369512231022594, 1.0, False]
